@@ -391,6 +391,11 @@ func (r *Repository) ReconcileLocalRSLWithRemote(ctx context.Context, remoteName
 
 	// Apply local only entries on top of the new local RSL
 	// localOnlyEntries is in reverse order
+
+	// reappliedEntryIDs maps the ID of each local only entry to the ID it has
+	// after being reapplied, so that annotations that refer to local only
+	// entries can be pointed at their reapplied counterparts
+	reappliedEntryIDs := map[string]githash.Hash{}
 	for i := len(localOnlyEntries) - 1; i >= 0; i-- {
 		slog.Debug(fmt.Sprintf("Reapplying entry '%s'...", localOnlyEntries[i].GetID().String()))
 
@@ -404,10 +409,25 @@ func (r *Repository) ReconcileLocalRSLWithRemote(ctx context.Context, remoteName
 				return fmt.Errorf("unable to reapply reference entry '%s': %w", entry.ID.String(), err)
 			}
 		case *rsl.AnnotationEntry:
-			if err := rsl.NewAnnotationEntry(entry.RSLEntryIDs, entry.Skip, entry.Message).Commit(r.r, sign); err != nil {
+			rslEntryIDs := make([]githash.Hash, 0, len(entry.RSLEntryIDs))
+			for _, rslEntryID := range entry.RSLEntryIDs {
+				if reappliedID, isLocalOnly := reappliedEntryIDs[rslEntryID.String()]; isLocalOnly {
+					rslEntryID = reappliedID
+				}
+				rslEntryIDs = append(rslEntryIDs, rslEntryID)
+			}
+			if err := rsl.NewAnnotationEntry(rslEntryIDs, entry.Skip, entry.Message).Commit(r.r, sign); err != nil {
 				return fmt.Errorf("unable to reapply annotation entry '%s': %w", entry.ID.String(), err)
 			}
+		default:
+			continue
 		}
+
+		reappliedTip, err := r.r.GetReference(rsl.Ref)
+		if err != nil {
+			return fmt.Errorf("unable to get current tip of the RSL: %w", err)
+		}
+		reappliedEntryIDs[localOnlyEntries[i].GetID().String()] = reappliedTip
 
 		if slog.Default().Enabled(ctx, slog.LevelDebug) {
 			currentTip, err := r.r.GetReference(rsl.Ref)
